@@ -120,7 +120,7 @@ func fragFilter(g *Gen, n int, o *Out) {
 			v := reflect.ValueOf(lk)
 			want := reflect.MakeMap(v.Type())
 			wantErr := false
-			for _, k := range v.MapKeys() {
+			for _, k := range sortedMapKeys(v) {
 				switch safeEvaluate(ev, v.MapIndex(k).Interface()) {
 				case "T":
 					want.SetMapIndex(k, v.MapIndex(k))
@@ -158,7 +158,7 @@ func fragFilter(g *Gen, n int, o *Out) {
 					enumPaths(v.Index(j), "bexpr", nil, 3, &paths)
 				}
 			case reflect.Map:
-				for _, k := range v.MapKeys() {
+				for _, k := range sortedMapKeys(v) {
 					enumPaths(v.MapIndex(k), "bexpr", nil, 3, &paths)
 				}
 			}
@@ -251,7 +251,7 @@ func filterReference(text string, data interface{}) string {
 	case reflect.Map:
 		out := reflect.MakeMap(v.Type())
 		sawErr := false
-		for _, k := range v.MapKeys() {
+		for _, k := range sortedMapKeys(v) {
 			r := safeEvaluate(ev, v.MapIndex(k).Interface())
 			if r == "P" {
 				return "P"
@@ -660,6 +660,7 @@ func fragDet(g *Gen, n int, o *Out) {
 			for k := range m {
 				keys = append(keys, k)
 			}
+			sort.Strings(keys)
 			ml, mp, ms := map[string][]int{}, map[string]*pn{}, map[MyStr]string{}
 			for _, k := range keys {
 				switch g.r.Intn(3) {
